@@ -616,6 +616,9 @@ func TestVerifC26Walk(t *testing.T) {
 	c.Assume("MakeBlock stamps time.Now() into TimeStamp; no verdict depends on it (successors copy the previous timestamp)")
 	var stop atomic.Bool
 	nwalks := c.N(32, 400)
+	if c.Lane == "race" {
+		nwalks = 60 // the race detector costs ~6x; the lane looks for unsynchronised shared state (config.Consensus, logging) in MakeBlock/PreCheck
+	}
 	var next atomic.Int64
 	var wg sync.WaitGroup
 	for k := 0; k < 16; k++ {
